@@ -367,6 +367,11 @@ impl Hypercore {
         }
 
         let byte_range = self.byte_range(index, None).await?;
+        if byte_range.length == 0 {
+            // An empty block occupies no bytes: there is nothing to read, and its offset may
+            // lie beyond the end of a data file that a clear has truncated.
+            return Ok(Some(vec![]));
+        }
 
         // TODO: Generalize Either response stack
         let data = match self.block_store.read(&byte_range, None) {
